@@ -133,7 +133,8 @@ def gen_history(rng):
         elif r < 0.91:
             ops.append(['define', rng.choice(['Late', 'Other']), rng.randint(0, 3)])
         elif r < 0.95:
-            ops.append(rng.choice([['th_cls', rng.choice(['Late', 'Other'])], ['sub_cls', 'Late', 'Other'], ['sub_cls', 'Late', 'Late']]))
+            ops.append(rng.choice([['th_cls', rng.choice(['Late', 'Other'])], ['sub_cls', 'Late', 'Other'], ['sub_cls', 'Late', 'Late'],
+                                   ['fwd_hint', rng.choice(['Late', 'Other'])]]))
         else:
             ops.append(['fwd', rng.choice(['Late', 'Other']), rng.choice(['Late', 'Other']), rng.random() < 0.3])
     return {'mode': 'history', 'ops': ops}
@@ -148,6 +149,9 @@ def _reuse_scenario():
 
 
 SCENARIOS = [
+    # a hint with a string child (and a later sibling child) asked about before and after the named class is redefined
+    {'mode': 'history', 'ops': [['define', 'Late', 0], ['fwd_hint', 'Late'], ['define', 'Late', 1], ['fwd_hint', 'Late'],
+                                ['define_bt', 'Late', 2], ['fwd_hint', 'Late']]},
     # a callable annotated by the name of a class defined later, called between redefinitions of that class: when the class is
     # decorated by @beartype the redefinition is noticed (caches cleared) and the callable follows the current class ...
     {'mode': 'history', 'ops': [['fwd', 'Late', 'Late', False], ['define_bt', 'Late', 0], ['fwd', 'Late', 'Late', False],
